@@ -127,7 +127,10 @@ def check_tree(ctx, out, spec, tag, rot, levelorder=False, tree=None):
             dids.append(n.data_id)
     by_data = [[pool.canon_did(d), adapter.ids(tree.find_all(data_id=d), ser)] for d in dids]
     by_id = [[n.node_id, ser.of(n)] for n in nodes]
-    absent = [pool.hash_canon[hash("F")], 424242, "nope"]
+    # absent ids (also strings that ARE the data of a node, or its name: looking an id up must leave nothing behind that a
+    # later `tree[<the same string>]` by data would stumble over)
+    absent = [pool.hash_canon[hash("F")], 424242, "nope"] + [n.data for n in nodes[:3] if isinstance(n.data, str) and n.data_id != n.data
+                                                              and not any(m.data_id == n.data for m in nodes)]
     for d_real, dc in [(d, pool.canon_did(d)) for d in dids] + [(None, a) for a in absent]:
         for k in KS:
             if d_real is None:
@@ -262,7 +265,7 @@ def run(ctx):
             ps = H.paths_of(impl.trees[0])
             if not ps:
                 break
-            op = {"op": "w.setdata", "t": 0, "n": ctx.rng.choice(ps), "a": ctx.rng.choice(NAMES), "clones": False}
+            op = {"op": "w.setdata", "t": 0, "n": ctx.rng.choice(ps), "a": ctx.rng.choice(NAMES), "clones": ctx.rng.choice([False, False, True])}
             if ctx.rng.random() < 0.4:
                 op["did"] = ctx.rng.choice(["A", "a1", 7, ""])
             impl.apply(dict(op))
